@@ -569,12 +569,21 @@ def symmetryOf (s : String) : Symmetry :=
 
 def sameAtoms (s : String) (a b : List Nat) : Bool :=
   match symmetryOf s with
-  | .unordered => a.mergeSort (fun x y => x ≤ y) == b.mergeSort (fun x y => x ≤ y)
+  | .unordered => a.isPerm b
   | .reversal => a == b || a == b.reverse
   | .positional => a == b
 
 def sameIxn (s : String) (x y : RIxn) : Bool :=
   sameAtoms s x.atoms y.atoms && x.params == y.params && decide (x.guard = y.guard)
+
+/-- element-wise relation of two lists of equal length -/
+inductive AllRel {α β : Type} (r : α → β → Prop) : List α → List β → Prop where
+  | nil : AllRel r [] []
+  | cons {a : α} {b : β} {as : List α} {bs : List β} : r a b → AllRel r as bs → AllRel r (a :: as) (b :: bs)
+
+/-- `ys` is `xs` as a multiset, up to `rel` -/
+def SameUpTo {α : Type} (rel : α → α → Bool) (xs ys : List α) : Prop :=
+  ∃ l, ys.Perm l ∧ AllRel (fun x y => rel x y = true) xs l
 
 /-- remove the first element related to `x` -/
 def eraseRel {α : Type} (rel : α → α → Bool) (x : α) : List α → Option (List α)
@@ -625,12 +634,37 @@ def wfB (m : Mol) : Bool :=
   m.sections.all (fun s => s.2.all (fun x =>
     x.atoms.all (hasKey m.atoms) && !(x.ifdef.isSome && x.ifndef.isSome) && arityOk s.1 x))
 
+/-- the one section where the writer's re-ordering (`_sort_atoms` reverses every `angle…` section whose
+first atom index exceeds the last) is not a symmetry of the interaction: `angle_restraints_z i j` is the
+angle of the vector i->j with the z axis.  `zOrdered` = the writer leaves these interactions alone. -/
+def zOrdered (m : Mol) : Bool :=
+  m.sections.all (fun s => s.1 != "angle_restraints_z" ||
+    s.2.all (fun x => sortAtoms s.1 (x.atoms.map (fun k => posOf (sortedNodes m) k + 1))
+                        == x.atoms.map (fun k => posOf (sortedNodes m) k + 1)))
+
+/-- why a molecule is not well formed (diagnostics for the harness; empty iff `wfB`) -/
+def wfWhy (m : Mol) : List String :=
+  (if m.atoms.isEmpty then ["no-atoms"] else []) ++
+  (if decide ((m.atoms.map (·.key)).Nodup) then [] else ["duplicate-keys"]) ++
+  (if m.atoms.all Atom.fieldsOk then [] else ["mass-without-charge"]) ++
+  (if decide ((m.sections.map (·.1)).Nodup) then [] else ["duplicate-section"]) ++
+  m.sections.flatMap (fun s =>
+    (if s.2.all (fun x => x.atoms.all (hasKey m.atoms)) then [] else ["dangling-atom:" ++ s.1]) ++
+    (if s.2.all (fun x => !(x.ifdef.isSome && x.ifndef.isSome)) then [] else ["both-guards:" ++ s.1]) ++
+    (if s.2.all (fun x => arityOk s.1 x) then [] else
+      [(if (lookupSplit (headerName s.1)).isSome then "arity:" else "unreadable-section:") ++ s.1]))
+
+/-- the built molecule as a block (for evaluating graph hypotheses on what was built) -/
+def canonBlock (moltype : Tok) (m : Mol) : Block :=
+  { name := moltype, nrexcl := m.nrexcl, atoms := canonAtoms m,
+    sections := (canonSectionNames m).map (fun s => (s, canonIxns m s)) }
+
 /-! ## Residue graph of a (re-read) block -/
 
-/-- `_make_edges`: edges between consecutive atoms of every bond and constraint -/
+/-- `_make_edges`: edges between consecutive atoms of every bond and constraint (`block.interactions`
+is a dict, so each of the two sections occurs once; the order of the edges is irrelevant) -/
 def atomEdges (b : Block) : List (Nat × Nat) :=
-  (b.sections.filter (fun s => s.1 = "bonds" || s.1 = "constraints")).flatMap
-    (fun s => s.2.flatMap (fun x => x.atoms.zip x.atoms.tail))
+  (b.ixnsOf "bonds" ++ b.ixnsOf "constraints").flatMap (fun x => x.atoms.zip x.atoms.tail)
 
 /-- residues in order of first appearance (= partitions sorted by their lowest atom index) -/
 def residues (b : Block) : List (Nat × Tok) := firstOcc (b.atoms.map (fun a => (a.resid, a.resname)))
